@@ -12,6 +12,8 @@ class FakeFile(object):
         self.closed = False
         self._buf = []
         self._fd = fs.next_fd()
+        self._pos = 0
+        self.binary = 'b' in mode
         if 'a' in mode or 'w' in mode:
             if 'w' in mode or name not in fs.files:
                 fs.files[name] = '' if 'w' in mode else fs.files.get(name, '')
@@ -48,10 +50,35 @@ class FakeFile(object):
 
     # reading
     def __iter__(self):
-        return iter(io.StringIO(self.fs.files[self.name]))
+        c = self._content()
+        return iter(io.BytesIO(c) if self.binary else io.StringIO(c))
 
-    def read(self):
-        return self.fs.files[self.name]
+    def _content(self):
+        c = self.fs.files[self.name]
+        return c.encode('utf-8') if self.binary else c
+
+    def read(self, n=-1):
+        c = self._content()
+        out = c[self._pos:] if n is None or n < 0 else c[self._pos:self._pos + n]
+        self._pos += len(out)
+        return out
+
+    def readline(self):
+        c = self._content()
+        nl = c.find(b'\n' if self.binary else '\n', self._pos)
+        end = len(c) if nl < 0 else nl + 1
+        out = c[self._pos:end]
+        self._pos = end
+        return out
+
+    def seek(self, offset, whence=0):
+        n = len(self._content())
+        self._pos = offset if whence == 0 else (self._pos + offset if whence == 1 else n + offset)
+        self._pos = max(0, self._pos)
+        return self._pos
+
+    def tell(self):
+        return self._pos
 
     def readlines(self):
         return list(iter(self))
@@ -99,6 +126,8 @@ class FakeOS(object):
         self._fd = 100
         self.last_write = None
         self.sep = '/'
+        self.SEEK_SET, self.SEEK_CUR, self.SEEK_END = 0, 1, 2
+        self.linesep = '\n'
 
     def next_fd(self):
         self._fd += 1
